@@ -10,7 +10,7 @@ from ..cfg import no_exc
 from ..report import Registry, chain, sub
 from ._helpers_rules_d import call_nodes, callee_is, guard_atom_set, kw, qualname
 from ._helpers_rob_B2 import (bind_args, bool_binds, expand, helper_key_stores, is_bound_method, key_store_helpers, module_functions_by_name, references,
-                              resolved_atom_set)
+                              resolved_atom_set, single_binds)
 
 R = Registry(
     "C34",
@@ -998,6 +998,425 @@ def r9(ctx):
     ctx.require(n_inst >= 1, "no identity-map registration site found outside orm/identity.py")
 
 
+# ---------------------------------------------------------------------- C34-R10: the token a state carries is the token of its key
+# `Mapper._identity_key_from_state(state)` RE-COMPUTES a state's identity key as (class, current pk, state.identity_token), and
+# `Session._register_persistent` reads a difference between that and `state.key` as a primary-key switch (discard, re-key, re-file).
+# A state whose `identity_token` is not the third component of its `key` is therefore re-filed under another key by the next
+# flush, and a get()/query with the token builds a second object for the row.  So `key` and `identity_token` are written together.
+STATE_CLS = "orm/state.py::InstanceState"
+# key stores whose value is a key that the SAME state carried before (not decidable from the function itself)
+KEY_OF_SAME_STATE = {
+    "orm/session.py::SessionTransaction._restore_snapshot":
+        "restores the key recorded at the primary-key switch in Session._register_persistent; the switch computes the new key with "
+        "Mapper._identity_key_from_state(state), which never changes the token component, so the old key carries the state's own token",
+}
+
+
+def _recompute_functions(ctx) -> Dict[str, object]:
+    """{function name: FuncInfo} of orm/mapper.py functions that return a 3-tuple whose last element is `<parameter>.identity_token`
+    (the identity key re-computed from the state itself)."""
+    out = {}
+    m = ctx.index.module("orm/mapper.py")
+    for f in ctx.index.all_functions(m):
+        if f.type_only or f.is_overload:
+            continue
+        for n in walk_local(f.node):
+            if isinstance(n, ast.Return) and isinstance(n.value, ast.Tuple) and len(n.value.elts) == 3:
+                last = n.value.elts[2]
+                if isinstance(last, ast.Attribute) and last.attr == TOKEN and isinstance(last.value, ast.Name) and last.value.id in f.params:
+                    out[f.name] = (f, f.params.index(last.value.id) - (1 if f.params and f.params[0] in ("self", "cls") else 0))
+    return out
+
+
+def _const_iter_entries(call_or_loop_iter, elt_key, elt_val, gens):
+    """[(constant key, value expression with the loop variable replaced by the constant, conditional?)] for a comprehension /
+    loop `for K in (<constants>)` producing (K, <value>) pairs; None when the shape is not understood."""
+    if len(gens) != 1:
+        return None
+    gen = gens[0]
+    if not isinstance(gen.target, ast.Name) or not isinstance(gen.iter, (ast.Tuple, ast.List, ast.Set)):
+        return None
+    if not all(isinstance(e, ast.Constant) and isinstance(e.value, str) for e in gen.iter.elts):
+        return None
+    if not (isinstance(elt_key, ast.Name) and elt_key.id == gen.target.id):
+        return None
+    out = []
+    for e in gen.iter.elts:
+        out.append((e.value, expand(elt_val, {gen.target.id: ast.Constant(value=e.value)}), bool(gen.ifs)))
+    return out
+
+
+def _dict_update_entries(arg, kws):
+    """Entries written by `<x>.__dict__.update(arg, **kws)`: [(key, value expr, conditional)]; None = shape not understood."""
+    out = [(k.arg, k.value, False) for k in kws if k.arg is not None]
+    if any(k.arg is None for k in kws):
+        return None
+    if arg is None:
+        return out
+    if isinstance(arg, ast.Dict):
+        for k, v in zip(arg.keys, arg.values):
+            if not (isinstance(k, ast.Constant) and isinstance(k.value, str)):
+                return None
+            out.append((k.value, v, False))
+        return out
+    if isinstance(arg, (ast.List, ast.Tuple)):
+        for e in arg.elts:
+            if not (isinstance(e, ast.Tuple) and len(e.elts) == 2 and isinstance(e.elts[0], ast.Constant)):
+                return None
+            out.append((e.elts[0].value, e.elts[1], False))
+        return out
+    if isinstance(arg, (ast.ListComp, ast.GeneratorExp)) and isinstance(arg.elt, ast.Tuple) and len(arg.elt.elts) == 2:
+        r = _const_iter_entries(arg, arg.elt.elts[0], arg.elt.elts[1], arg.generators)
+        return None if r is None else out + r
+    if isinstance(arg, ast.DictComp):
+        r = _const_iter_entries(arg, arg.key, arg.value, arg.generators)
+        return None if r is None else out + r
+    return None
+
+
+def _is_own_dict(e, var: str) -> bool:
+    return isinstance(e, ast.Attribute) and e.attr == "__dict__" and isinstance(e.value, ast.Name) and e.value.id == var
+
+
+def _attr_writes(ctx, fn, var: str, fkey: str) -> Dict[str, List[Tuple[ast.stmt, ast.expr, bool, ast.stmt]]]:
+    """{attribute: [(statement, value, conditional, anchor)]} for the instance attributes of `var` that fn's own scope writes by
+    plain assignment, `setattr(var, "a", v)`, `var.__dict__["a"] = v`, `var.__dict__.update(...)`, or a loop / comprehension over
+    constant attribute names doing one of these (anchor = that loop, else the statement: the statement to take loop passes from)."""
+    out: Dict[str, List[Tuple[ast.stmt, ast.expr, bool, ast.stmt]]] = {}
+
+    def add(a, st, v, cond=False, anchor=None):
+        out.setdefault(a, []).append((st, v, cond, anchor or st))
+
+    pm_loops: List[Tuple[ast.For, ast.stmt]] = []
+    for st in walk_stmts(fn.body):
+        if isinstance(st, (ast.Assign, ast.AnnAssign)) and getattr(st, "value", None) is not None:
+            tg = st.targets if isinstance(st, ast.Assign) else [st.target]
+            for t in tg:
+                if isinstance(t, ast.Attribute) and isinstance(t.value, ast.Name) and t.value.id == var:
+                    add(t.attr, st, st.value)
+                elif isinstance(t, ast.Subscript) and _is_own_dict(t.value, var):
+                    if isinstance(t.slice, ast.Constant) and isinstance(t.slice.value, str):
+                        add(t.slice.value, st, st.value)
+                    elif isinstance(t.slice, ast.Name):
+                        pm_loops.append((t.slice.id, st, st.value))
+                    else:
+                        ctx.require(False, f"{fkey}: `{unparse(t)}` writes an attribute of the state under a computed name")
+        elif isinstance(st, ast.Expr) and isinstance(st.value, ast.Call):
+            c = st.value
+            if isinstance(c.func, ast.Attribute) and c.func.attr == "update" and _is_own_dict(c.func.value, var):
+                ents = _dict_update_entries(c.args[0] if c.args else None, c.keywords) if len(c.args) <= 1 else None
+                ctx.require(ents is not None, f"{fkey}: `{unparse(c)[:80]}` updates the state's __dict__ in a shape that is not understood")
+                for k, v, cond in ents:
+                    add(k, st, v, cond)
+            elif isinstance(c.func, ast.Name) and c.func.id == "setattr" and len(c.args) == 3 and isinstance(c.args[0], ast.Name) and c.args[0].id == var:
+                if isinstance(c.args[1], ast.Constant) and isinstance(c.args[1].value, str):
+                    add(c.args[1].value, st, c.args[2])
+                elif isinstance(c.args[1], ast.Name):
+                    pm_loops.append((c.args[1].id, st, c.args[2]))
+    if pm_loops:
+        # `for K in ("a", "b"): [if K in D:] setattr(var, K, D[K])` -- one statement that may write each of the constant names
+        pm = {}
+        for p_ in ast.walk(fn):
+            for ch in ast.iter_child_nodes(p_):
+                pm[ch] = p_
+        for kname, st, v in pm_loops:
+            loop, cond, cur = None, False, pm.get(st)
+            while cur is not None and cur is not fn:
+                if isinstance(cur, ast.If):
+                    cond = True
+                if isinstance(cur, ast.For) and isinstance(cur.target, ast.Name) and cur.target.id == kname:
+                    loop = cur
+                    break
+                cur = pm.get(cur)
+            ok = loop is not None and isinstance(loop.iter, (ast.Tuple, ast.List, ast.Set)) and all(isinstance(e, ast.Constant) and isinstance(e.value, str) for e in loop.iter.elts)
+            ctx.require(ok, f"{fkey}: `{unparse(st)[:80]}` writes an attribute of the state under a computed name")
+            for e in loop.iter.elts:
+                add(e.value, st, expand(v, {kname: ast.Constant(value=e.value)}), cond, loop)
+    return out
+
+
+def _emitted_entries(fn) -> Set[str]:
+    """String keys a `__getstate__`-like function can put into the dict it builds: dict-display keys, constant subscript stores,
+    constants iterated by a loop / comprehension."""
+    out: Set[str] = set()
+    for n in ast.walk(fn):
+        if isinstance(n, ast.Dict):
+            out |= {k.value for k in n.keys if isinstance(k, ast.Constant) and isinstance(k.value, str)}
+        elif isinstance(n, ast.Subscript) and isinstance(n.ctx, ast.Store) and isinstance(n.slice, ast.Constant) and isinstance(n.slice.value, str):
+            out.add(n.slice.value)
+        elif isinstance(n, (ast.comprehension, ast.For)) and isinstance(n.iter, (ast.Tuple, ast.List, ast.Set)):
+            out |= {e.value for e in n.iter.elts if isinstance(e, ast.Constant) and isinstance(e.value, str)}
+        elif isinstance(n, ast.Call):
+            out |= {k.arg for k in n.keywords if k.arg is not None and callee_is(n, "update", "dict")}
+    return out
+
+
+def _entry_of(e, params) -> Tuple[str, str]:
+    """(`D`, `name`) when e is `D["name"]` / `D.get("name")` / `D.pop("name")` of a parameter D, else ('', '')."""
+    if isinstance(e, ast.Subscript) and isinstance(e.value, ast.Name) and e.value.id in params and isinstance(e.slice, ast.Constant) and isinstance(e.slice.value, str):
+        return e.value.id, e.slice.value
+    if (isinstance(e, ast.Call) and isinstance(e.func, ast.Attribute) and e.func.attr in ("get", "pop") and isinstance(e.func.value, ast.Name) and e.func.value.id in params
+            and e.args and isinstance(e.args[0], ast.Constant) and isinstance(e.args[0].value, str)):
+        return e.func.value.id, e.args[0].value
+    return "", ""
+
+
+def _key_falsy_edges(g, fn, var: str, after=()):
+    """edge_ok: non-exceptional edges minus the branch outcomes on which `var.key` is known to be None / falsy.  A local bound to
+    `var.key` counts as the key when it is read off after the store(s) `after` (a snapshot taken before is the OLD key)."""
+    binds = dict(bool_binds(fn))
+    for n, v in single_binds(fn).items():
+        if isinstance(v, ast.Attribute) and v.attr == "key" and isinstance(v.value, ast.Name) and v.value.id == var and (after is None or after):
+            sts = [st for nm, vv, st in name_stores(fn) if nm == n]
+            if after is None or all(g.always_preceded(x, after) is None for st in sts for x in g.nodes_for(st)):
+                binds[n] = v
+    barred = set()
+    for t in g.nodes:
+        if t.kind != "test":
+            continue
+        for lab, pol in (("true", True), ("false", False)):
+            at = set(test_atoms(expand(t.stmt.test, binds), pol))
+            if (f"{var}.key", False) in at or (f"{var}.key is None", True) in at:
+                barred.add((t.id, lab))
+    return lambda a, b, lab: lab != "exc" and (a, lab) not in barred
+
+
+class _TokenRule:
+    """Shared state of one run of C34-R10."""
+
+    def __init__(self, ctx):
+        self.ctx = ctx
+        self.recompute = _recompute_functions(ctx)
+        self.state_cls = ctx.index.cls(STATE_CLS)
+        self.state_classes = {c.key for c in ctx.index.subclasses(self.state_cls)} | {self.state_cls.key}
+        self._sync: Dict[int, bool] = {}
+
+    # -- values ------------------------------------------------------------------------------------------------
+    def own_token_value(self, fn, var: str, v, binds) -> bool:
+        """`v` is the identity key re-computed from `var`'s own identity_token."""
+        v = expand(v, binds)
+        if isinstance(v, ast.Call) and callee_is(v, "cast") and len(v.args) == 2:
+            v = v.args[1]
+        if isinstance(v, ast.Tuple) and len(v.elts) == 3:
+            return unparse(v.elts[2]) == f"{var}.{TOKEN}"
+        if isinstance(v, ast.Call):
+            nm = _callee_name(v)
+            if nm in self.recompute:
+                f, idx = self.recompute[nm]
+                a = v.args[idx] if idx < len(v.args) else kw(v, f.params[idx + (1 if f.params[0] in ("self", "cls") else 0)])
+                return isinstance(a, ast.Name) and a.id == var
+        return False
+
+    def value_is_own(self, m, pm, fn, var: str, v, depth=2) -> Tuple[bool, str]:
+        """(every value `v` can stand for is re-computed from var's own token, why).  Locals are followed through ALL their
+        bindings; a parameter of a private helper is followed to the arguments at every call site of the helper."""
+        binds = {n: x for n, x in single_binds(fn).items() if n != var}
+        if self.own_token_value(fn, var, v, binds):
+            return True, "re-computed from the state's own identity_token"
+        v = expand(v, binds)
+        if not isinstance(v, ast.Name):
+            return False, ""
+        params = [a.arg for a in fn.args.posonlyargs + fn.args.args + fn.args.kwonlyargs]
+        vals = [(val, st) for n, val, st in name_stores(fn) if n == v.id]
+        if vals:
+            if v.id in params or any(val is None for val, st in vals):
+                return False, ""
+            ok = all(self.value_is_own(m, pm, fn, var, val, depth)[0] for val, st in vals) if len(vals) > 1 else False
+            return ok, "every binding is re-computed from the state's own identity_token" if ok else ""
+        if v.id not in params or var not in params or depth <= 0:
+            return False, ""
+        if not fn.name.startswith("_") or fn.name.startswith("__") or len(module_functions_by_name(m.tree).get(fn.name, [])) != 1:
+            return False, ""
+        calls, other = references(m.tree, fn.name, pm)
+        if other or not calls:
+            return False, ""
+        why = []
+        for encl, c in calls:
+            if encl is None:
+                return False, ""
+            b = bind_args(fn, c, is_bound_method(fn, pm) and isinstance(c.func, ast.Attribute))
+            sv, vv = (b.get(var), b.get(v.id)) if b else (None, None)
+            if not isinstance(sv, ast.Name) or vv is None:
+                return False, ""
+            q = qualname(pm, encl)
+            ck = f"{m.relpath}::{q + '.' if q else ''}{encl.name}"
+            if ck in KEY_OF_SAME_STATE:
+                why.append(f"{encl.name}: {KEY_OF_SAME_STATE[ck]}")
+                continue
+            ok, w = self.value_is_own(m, pm, encl, sv.id, vv, depth - 1)
+            if not ok:
+                return False, ""
+            why.append(f"{encl.name}: {w}")
+        return True, "helper; at its call sites the key is " + "; ".join(dict.fromkeys(why))
+
+    # -- token writes ------------------------------------------------------------------------------------------
+    def token_source(self, fn, var: str, key_value, e, binds, params, getstate_emits) -> Tuple[str, str]:
+        """('any' | 'after' | '', reason): `e` is the token of the key `key_value` / of `var.key` (then the write must FOLLOW the
+        key store), or '' with the reason why it is not."""
+        ee = expand(e, binds)
+        kv = expand(key_value, binds)
+        if isinstance(ee, ast.IfExp):
+            at = set(test_atoms(ee.test, True))
+            if (f"{var}.key", True) in at or (f"{var}.key is None", False) in at:
+                return self.token_source(fn, var, key_value, ee.body, binds, params, getstate_emits)
+        for cand, base in ((e, key_value), (ee, kv), (ee, key_value), (e, kv)):
+            if _is_const_index(cand, 2):
+                if unparse(cand.value) == unparse(base):
+                    return "any", "component [2] of the stored key"
+                if unparse(cand.value) == f"{var}.key":
+                    return "after", f"{var}.key[2]"
+        if isinstance(kv, ast.Tuple) and len(kv.elts) == 3 and unparse(kv.elts[2]) in (unparse(ee), unparse(e)):
+            return "any", "the token the key was built with"
+        dk, nk = _entry_of(kv, params)
+        dt, nt = _entry_of(ee, params)
+        if dk and dk == dt and nk == "key":
+            if getstate_emits is None:
+                return "", f"`{unparse(e)}` is an entry of `{dk}` but no __getstate__ of the class was found to write it"
+            if nt in getstate_emits:
+                return "any", f"entry {nt!r} of the same pickled dict, written by __getstate__ beside 'key'"
+            return "", (f"`{unparse(e)}` reads the entry {nt!r} of the pickled dict, which __getstate__ never writes (it emits {sorted(getstate_emits)}): "
+                        f"after unpickling the token is the class default None whatever the key says")
+        return "", f"`{unparse(e)}` is not the token of the key"
+
+    def syncs_token(self, hfn, p: str) -> bool:
+        """Helper summary: on every normal path on which `p.key` is set, hfn assigns p.identity_token = p.key[2]."""
+        k = (id(hfn), p)
+        if k not in self._sync:
+            self._sync[k] = False
+            g = self.ctx.cfg(hfn)
+            binds = {n: x for n, x in single_binds(hfn).items() if n != p}
+            W = []
+            for st, e, cond, _a in _attr_writes(self.ctx, hfn, p, hfn.name).get(TOKEN, []):
+                kind, _ = self.token_source(hfn, p, ast.Attribute(value=ast.Name(id=p, ctx=ast.Load()), attr="key", ctx=ast.Load()), e, binds, [], None)
+                if kind and not cond:
+                    W += g.nodes_for(st)
+            self._sync[k] = bool(W) and g.witness([g.entry], [g.exit], avoid=W, edge_ok=_key_falsy_edges(g, hfn, p, None)) is None  # the helper does not store the key: any read of it is current
+        return self._sync[k]
+
+    def sync_calls(self, m, pm, fn, g, var: str) -> List[int]:
+        """CFG nodes of fn that call a helper which sets var.identity_token from var.key (method of the state class called on
+        var, or a function of the module handed var)."""
+        byname = module_functions_by_name(m.tree)
+
+        def is_sync(c: ast.Call) -> bool:
+            nm = _callee_name(c)
+            if nm is None:
+                return False
+            if isinstance(c.func, ast.Attribute) and isinstance(c.func.value, ast.Name) and c.func.value.id == var and not c.args:
+                t = self.ctx.index.resolve_method(self.state_cls, nm)
+                if t is not None and t.params and not t.type_only:
+                    return self.syncs_token(t.node, t.params[0])
+            fs = byname.get(nm, [])
+            if len(fs) == 1 and fs[0] is not fn:
+                b = bind_args(fs[0], c, is_bound_method(fs[0], pm) and isinstance(c.func, ast.Attribute))
+                for p, a in (b or {}).items():
+                    if isinstance(a, ast.Name) and a.id == var and p not in ("self", "cls"):
+                        return self.syncs_token(fs[0], p)
+            return False
+        return call_nodes(g, is_sync)
+
+
+@R.rule("C34-R10", floor=7, template="T-FLOW",
+        desc="a state's identity_token is the third component of its key (Mapper._identity_key_from_state re-computes the key "
+             "from state.identity_token and Session._register_persistent re-files the object when the two differ): wherever orm/ "
+             "stores a key on a state that is not re-computed from the state's own token, every path through the store also sets "
+             "state.identity_token to the token of that key (component [2] of it, the token it was built with, or the pickled entry "
+             "that __getstate__ writes beside it)")
+def r10(ctx):
+    T = _TokenRule(ctx)
+    ctx.require(T.recompute, "orm/mapper.py no longer has a function that builds (class, pk, <state>.identity_token)")
+    for nm, (f, idx) in sorted(T.recompute.items()):
+        ctx.functions_analysed.add(f.key)
+        ctx.ok(f"{f.key}:key-recomputed-from-state-token", f"returns (.., .., {f.params[idx + (1 if f.params[0] in ('self', 'cls') else 0)]}.{TOKEN})")
+    n_inst = 0
+    for m in ctx.index.all_modules():
+        if not m.relpath.startswith("orm/") or m.relpath in NOT_STATE_KEYS or "key" not in m.source:
+            continue
+        pm = None
+        for fn in _functions(m.tree):
+            if pm is None:
+                pm = m.parents()
+            par = pm.get(fn)
+            q = qualname(pm, fn)
+            fkey = f"{m.relpath}::{q + '.' if q else ''}{fn.name}"
+            # state variables: locals / parameters whose key is assigned; `self` only inside the state class
+            cands = {v for v, ws in _key_writes(fn).items() if any(k == "store" for st, k in ws)}
+            first = (fn.args.posonlyargs + fn.args.args)[:1]
+            if isinstance(par, ast.ClassDef) and f"{m.relpath}::{qualname(pm, par) + '.' if qualname(pm, par) else ''}{par.name}" in T.state_classes and first:
+                cands.add(first[0].arg)
+            if not cands:
+                continue
+            params = [a.arg for a in fn.args.posonlyargs + fn.args.args + fn.args.kwonlyargs]
+            problems, notes, wit = [], [], None
+            g = None
+            for var in sorted(cands):
+                writes = _attr_writes(ctx, fn, var, fkey)
+                stores = [(st, v, a) for st, v, c, a in writes.get("key", []) if not (isinstance(v, ast.Constant) and v.value is None)]
+                if not stores:
+                    continue
+                if g is None:
+                    g = ctx.cfg(fn)
+                binds = {n: x for n, x in single_binds(fn).items() if n != var}  # the state variable itself is never written out
+                getstate_emits = None
+                if isinstance(par, ast.ClassDef):
+                    gs = [x for x in par.body if isinstance(x, (ast.FunctionDef, ast.AsyncFunctionDef)) and x.name == "__getstate__"]
+                    if gs:
+                        getstate_emits = _emitted_entries(gs[0])
+                sync = None
+                for st, v, anchor in stores:
+                    own, why = T.value_is_own(m, pm, fn, var, v)
+                    if own:
+                        notes.append(f"`{unparse(st)[:60]}`: {why}")
+                        continue
+                    if fkey in KEY_OF_SAME_STATE:
+                        notes.append(f"`{unparse(st)[:60]}`: {KEY_OF_SAME_STATE[fkey]}")
+                        continue
+                    w_any, w_after, rejected = [], [], []
+                    for tst, e, tcond, _a in writes.get(TOKEN, []):
+                        kind, why = T.token_source(fn, var, v, e, binds, params, getstate_emits)
+                        if kind == "any":
+                            w_any += g.nodes_for(tst)
+                        elif kind == "after":
+                            w_after += g.nodes_for(tst)
+                        else:
+                            rejected.append(why)
+                    if sync is None:
+                        sync = T.sync_calls(m, pm, fn, g, var)
+                    w_after += sync
+                    starts, heads = _pass_bounds(g, pm, fn, anchor)
+                    ends = list(heads) + [g.exit]
+                    ok_edges = _key_falsy_edges(g, fn, var, g.nodes_for(st))
+                    bad = None
+                    for N in g.nodes_for(st):
+                        if N in w_any:
+                            continue
+                        before = g.witness(starts, [N], avoid=w_any, edge_ok=no_exc) if N not in starts else [N]
+                        after = g.witness([N], ends, avoid=set(w_any) | set(w_after), edge_ok=ok_edges)
+                        if before is not None and after is not None:
+                            bad = list(before) + [x for x in after if x != N]
+                            break
+                    if bad is None:
+                        notes.append(f"`{unparse(st)[:60]}`: the token is set from the same key on every path")
+                        continue
+                    txt = unparse(st)
+                    txt = txt if len(txt) <= 90 else txt[:87] + "..."
+                    problems.append(
+                        f"`{txt}` gives `{var}` a key that is not re-computed from the state's own {TOKEN}, and "
+                        + ("nothing sets" if not (w_any or w_after or rejected) else "not every path sets")
+                        + f" `{var}.{TOKEN}` to the token of that key"
+                        + (f" ({'; '.join(dict.fromkeys(rejected))})" if rejected else "")
+                        + f": for a key (class, pk, token) the state keeps another token, Mapper.{sorted(T.recompute)[0]}(state) then differs from state.key, "
+                          f"Session._register_persistent takes that for a primary-key switch and files the object under the other key at the next flush, so "
+                          f"get() / a query with the token misses the identity map and a second object is built for the row")
+                    wit = wit or g.describe_path(bad)
+            if not problems and not notes:
+                continue
+            n_inst += 1
+            ctx.functions_analysed.add(fkey)
+            ctx.check(not problems, f"{fkey}:token-follows-key", "; ".join(dict.fromkeys(problems)), "; ".join(dict.fromkeys(notes)), f"{m.path}:{fn.lineno}", wit)
+    ctx.require(n_inst >= 1, "no function of orm/ stores the key of a state")
+
+
 # ---------------------------------------------------------------------- self-test battery
 R.mutant("foreign-dict-store", SESSION,
          sub("    def _validate_persistent(self, state: InstanceState[Any]) -> None:\n", "    def _validate_persistent(self, state: InstanceState[Any]) -> None:\n        self.identity_map._dict[state.key] = state\n"), "C34-R1")
@@ -1183,3 +1602,61 @@ R.mutant("benign-replace-lookup-with-get-and-guard-clause", IDENT,
          sub(_REPL_OLD, "        existing = self._dict.get(state.key)\n        if existing is not None:\n            if existing is state:\n                return None\n            self._manage_removed_state(existing)\n"), None)
 R.mutant("replace-lookup-with-get-no-release", IDENT,
          sub(_REPL_OLD, "        existing = self._dict.get(state.key)\n        if existing is not None:\n            if existing is state:\n                return None\n"), "C34-R2")
+
+# ---------------------------------------------------------------------- C34-R10 (the token a state carries is the token of its key) -- str2-o
+STATE = "orm/state.py"
+_SS_UPD = ("        self.__dict__.update(\n            [\n                (k, state_dict[k])\n                for k in (\"key\", \"load_options\")\n                if k in state_dict\n            ]\n        )\n")
+_SS_TOK = "        if self.key:\n            self.identity_token = self.key[2]\n"
+_SS_UPD_TOK = _SS_UPD.replace("(\"key\", \"load_options\")", "(\"key\", \"load_options\", \"identity_token\")")
+_GS_KEYS = "                \"key\",\n                \"parents\",\n"
+# round-2 seed C34_3: half of a "pickle the token explicitly" refactoring -- __setstate__ reads an entry that __getstate__ never writes
+R.mutant("seed-setstate-token-from-entry-getstate-never-writes", STATE, sub(_SS_UPD + _SS_TOK, _SS_UPD_TOK), "C34-R10")
+R.mutant("setstate-does-not-derive-token", STATE, sub(_SS_UPD + _SS_TOK, _SS_UPD), "C34-R10")
+R.mutant("setstate-derives-token-before-key-is-restored", STATE, sub(_SS_UPD + _SS_TOK, _SS_TOK + _SS_UPD), "C34-R10")
+R.mutant("setstate-derives-token-only-when-expired", STATE, sub(_SS_TOK, "        if self.key and self.expired:\n            self.identity_token = self.key[2]\n"), "C34-R10")
+R.mutant("setstate-loop-form-without-token", STATE,
+         sub(_SS_UPD + _SS_TOK, "        for k in (\"key\", \"load_options\"):\n            if k in state_dict:\n                self.__dict__[k] = state_dict[k]\n"), "C34-R10")
+R.mutant("setstate-helper-reads-the-key-before-it-is-restored", STATE,
+         chain(sub(_SS_UPD + _SS_TOK, "        self._token_from_key()\n" + _SS_UPD),
+               sub("    def _reset(self, dict_: _InstanceDict, key: str) -> None:\n", "    def _token_from_key(self) -> None:\n" + _SS_TOK + "\n    def _reset(self, dict_: _InstanceDict, key: str) -> None:\n")), "C34-R10")
+R.mutant("setstate-helper-derives-token-from-pk-component", STATE,
+         chain(sub(_SS_UPD + _SS_TOK, _SS_UPD + "        self._token_from_key()\n"),
+               sub("    def _reset(self, dict_: _InstanceDict, key: str) -> None:\n",
+                   "    def _token_from_key(self) -> None:\n        if self.key:\n            self.identity_token = self.key[1]\n\n    def _reset(self, dict_: _InstanceDict, key: str) -> None:\n")), "C34-R10")
+R.mutant("loader-does-not-set-token", LOADING, sub("                state.key = identitykey\n                state.identity_token = identity_token\n", "                state.key = identitykey\n"), "C34-R10")
+R.mutant("loader-sets-token-of-the-refresh-key", LOADING,
+         sub("                state.key = identitykey\n                state.identity_token = identity_token\n",
+             "                state.key = identitykey\n                state.identity_token = (\n                    refresh_identity_key[2] if refresh_identity_key else None\n                )\n"), "C34-R10")
+R.mutant("make-transient-to-detached-key-from-pk-without-token", SESSION,
+         sub("    state.key = state.mapper._identity_key_from_state(state)\n",
+             "    state.key = state.mapper.identity_key_from_primary_key(\n        state.mapper.primary_key_from_instance(state.obj())\n    )\n"), "C34-R10")
+R.mutant("recomputed-key-ignores-state-token", "orm/mapper.py",
+         sub("                    for prop in self._identity_key_props\n                ]\n            ),\n            state.identity_token,\n        )\n",
+             "                    for prop in self._identity_key_props\n                ]\n            ),\n            None,\n        )\n"), "C34-R10")
+R.mutant("key-switch-helper-rekeys-with-key-of-other-state", SESSION,
+         _switch_helper("                    self._switch_identity_key(state, mapper._identity_key_from_state(old_state))\n",
+                        "        self.identity_map.safe_discard(state)\n" + _SW_RECORD + "        state.key = instance_key\n",
+                        sub("                instance_key = mapper._identity_key_from_state(state)\n", "                instance_key = mapper._identity_key_from_state(state)\n                old_state = state\n")), "C34-R10")
+# benign: the same code re-expressed
+R.mutant("benign-setstate-token-through-key-local", STATE, sub(_SS_TOK, "        restored = self.key\n        if restored:\n            self.identity_token = restored[2]\n"), None)
+R.mutant("benign-setstate-guard-clause-ternary", STATE, sub(_SS_TOK, "        self.identity_token = self.key[2] if self.key is not None else None\n"), None)
+R.mutant("benign-setstate-comprehension-as-loop", STATE,
+         sub(_SS_UPD, "        for k in (\"key\", \"load_options\"):\n            if k in state_dict:\n                self.__dict__[k] = state_dict[k]\n"), None)
+R.mutant("benign-setstate-setattr-loop-and-inverted-test", STATE,
+         sub(_SS_UPD + _SS_TOK, "        for name in (\"key\", \"load_options\"):\n            if name not in state_dict:\n                continue\n            setattr(self, name, state_dict[name])\n"
+                                "        if not self.key:\n            pass\n        else:\n            self.identity_token = self.key[2]\n"), None)
+R.mutant("benign-setstate-token-in-helper", STATE,
+         chain(sub(_SS_UPD + _SS_TOK, _SS_UPD + "        self._token_from_key()\n"),
+               sub("    def _reset(self, dict_: _InstanceDict, key: str) -> None:\n", "    def _token_from_key(self) -> None:\n" + _SS_TOK + "\n    def _reset(self, dict_: _InstanceDict, key: str) -> None:\n")), None)
+# the seed's refactoring carried through: the token is pickled beside the key and restored from there
+R.mutant("benign-token-pickled-explicitly-by-getstate-and-setstate", STATE,
+         chain(sub(_SS_UPD + _SS_TOK, _SS_UPD_TOK), sub(_GS_KEYS, "                \"key\",\n                \"identity_token\",\n                \"parents\",\n")), None)
+R.mutant("benign-setstate-plain-assignments", STATE,
+         sub(_SS_UPD + _SS_TOK, "        if \"load_options\" in state_dict:\n            self.load_options = state_dict[\"load_options\"]\n        if \"key\" in state_dict:\n            self.key = pickled_key = state_dict[\"key\"]\n"
+                                "            if pickled_key:\n                self.identity_token = pickled_key[2]\n"), None)
+R.mutant("benign-loader-token-first-and-key-alias", LOADING,
+         sub("                state.key = identitykey\n                state.identity_token = identity_token\n", "                state.identity_token = identity_token\n                new_key = identitykey\n                state.key = new_key\n"), None)
+R.mutant("benign-loader-token-from-key-component", LOADING,
+         sub("                state.key = identitykey\n                state.identity_token = identity_token\n", "                state.key = identitykey\n                state.identity_token = identitykey[2]\n"), None)
+R.mutant("benign-flush-refresh-key-inline", "orm/persistence.py",
+         sub("            if state.key is None:\n                state.key = identity_key\n", "            if state.key is None:\n                state.key = base_mapper._identity_key_from_state(state)\n"), None)
